@@ -340,13 +340,17 @@ where
         let request_hash = response.request_type().hash();
 
         // check whether we are (still) waiting on response to this request
-        let Some(_) = self.outstanding_requests.remove(&request_hash) else {
+        if !self.outstanding_requests.contains_key(&request_hash) {
             warn!("received repair response for unknown request {response:?}");
             return;
-        };
+        }
+        // NOTE: The request stays outstanding until a *valid* response arrives.
+        // An invalid response (from any peer) must not cancel it,
+        // otherwise the timeout would never retry it and the repair would stall.
 
         match response {
             RepairResponse::Nack(req_type) => {
+                self.outstanding_requests.remove(&request_hash);
                 debug!("received NACK for repair request {req_type:?}, retrying immediately");
                 if let Err(err) = self.send_request(req_type).await {
                     warn!("retrying NACKed repair request failed: {err}");
@@ -370,6 +374,7 @@ where
                 }
 
                 // store slice Merkle root
+                self.outstanding_requests.remove(&request_hash);
                 self.slice_roots
                     .insert((block_id.clone(), last_slice), root);
 
@@ -396,6 +401,7 @@ where
                 }
 
                 // store slice Merkle root
+                self.outstanding_requests.remove(&request_hash);
                 self.slice_roots.insert((block_id.clone(), slice), root);
 
                 // issue next requests
@@ -437,6 +443,7 @@ where
                 };
 
                 // store shred
+                self.outstanding_requests.remove(&request_hash);
                 let res = self
                     .blockstore
                     .write()
